@@ -5,16 +5,18 @@ import os
 
 VERIF = os.path.abspath(os.path.join(os.path.dirname(__file__), '..'))
 
-# property id -> (technique, level text, level note, design ref)
-CHECKS = {
- 'C20': ('Lean 4 proof (Lossy-Counting invariant by induction over the addition stream) + model/impl correspondence',
-         'Lean theorems over an executable model of ThresholdCounter: total, no over-count, under-count <= floor(total/w), heavy keys present, '
-         'common+uncommon=total, view agreement, most_common sorted - for every stream (induction), kernel-checked. The size-bound clause is '
-         'proved FALSE for the implemented algorithm (C20.size_bound_false, witness replayed on the real code every run; known finding). '
-         'The model is tied to the code by a differential correspondence (exhaustive small streams + random mixed histories + adversarial streams).',
-         'Trusted: Lean kernel; hand model of add/update/readers is validated, not verified, by the correspondence; w=floor(1/threshold) computed in floats by the harness.',
-         '6 C20'),
-}
+def load_checks():
+    """per-property manifest metadata lives next to the property module: harness/bv/props/cxx.meta.json
+    {technique, level_text, level_note, design_ref[, category]}"""
+    out = {}
+    d = os.path.join(VERIF, 'harness', 'bv', 'props')
+    for f in sorted(os.listdir(d)):
+        if f.endswith('.meta.json'):
+            out[f[:3].upper()] = json.load(open(os.path.join(d, f)))
+    return out
+
+
+CHECKS = load_checks()
 
 PENDING_REASON = 'check under construction in this revision (model + proofs not committed yet); see DESIGN.md section 6'
 
@@ -26,7 +28,8 @@ def main():
     for p in props:
         pid = p['id']
         if pid in CHECKS and os.path.exists(os.path.join(VERIF, 'harness', 'bv', 'props', pid.lower() + '.py')):
-            tech, text, note, ref = CHECKS[pid]
+            md = CHECKS[pid]
+            tech, text, note, ref = md['technique'], md['level_text'], md['level_note'], md['design_ref']
             checks.append({
                 'property_id': pid,
                 'quick_cmd': './check %s quick' % pid,
@@ -34,7 +37,7 @@ def main():
                 'evidence_file': 'evidence/%s.json' % pid,
                 'replay_cmd_template': './check %s --replay {path}' % pid,
                 'engine': 'lean4-proof+correspondence',
-                'level_claimed': {'category': 'proof', 'text': text, 'design_ref': 'DESIGN.md section ' + ref},
+                'level_claimed': {'category': md.get('category', 'proof'), 'text': text, 'design_ref': 'DESIGN.md section ' + ref},
                 'level_note': note,
                 'technique': tech,
             })
@@ -62,6 +65,16 @@ def main():
     }
     with open(os.path.join(VERIF, 'MANIFEST.json'), 'w') as f:
         json.dump(m, f, indent=1)
+    allf = []
+    kd = os.path.join(VERIF, 'known_findings')
+    for f in sorted(os.listdir(kd)):
+        if f.endswith('.json'):
+            allf.extend(json.load(open(os.path.join(kd, f)))['findings'])
+    with open(os.path.join(VERIF, 'known_findings.json'), 'w') as f:
+        json.dump({'_comment': 'assembled from known_findings/<id>.json by harness/mk_manifest.py; committed, never written '
+                               'at run time. status=known: recorded genuine defect (matched by predicate, witness replayed every run); '
+                               'status=fixed: repaired by a fix: commit in /repo, suppresses nothing.',
+                   'findings': allf}, f, indent=1)
     print('MANIFEST.json: %d checks, %d not_applicable' % (len(checks), len(na)))
 
 
